@@ -288,11 +288,11 @@ Proof. vm_compute. repeat split. repeat constructor. Qed.
    ALL arguments, error exits included - so "exactly one parent / exactly once by identity in that
    parent's child list / never its own ancestor / owner = the tree / reachable = counted" become
    theorems about the assignments the code executes ([HeapOK]).  Covered: add_child(data), the four
-   shortcuts, remove (plain, keep_children, with_clones), remove_children, clear, del, move_to,
-   sort_children(deep=False), set_data / rename (incl. clone groups), metadata edits, new tree, and the copies
-   (add(node) shallow and deep - Node._add_from allocating node by node -, add(tree), copy_to, Tree.copy,
-   Node.copy).  Modelled and compared with the implementation but without a simulation proof:
-   sort_children(deep=True).  Not modelled: in-place filter, from_dict. *)
+   shortcuts, remove (plain, keep_children, with_clones), remove_children, clear, del, move_to (cross-tree
+   moves are refused by the code), sort_children (flat and deep), set_data / rename (incl. clone groups),
+   metadata edits, new tree, and the copies (add(node) shallow and deep - Node._add_from allocating node
+   by node -, add(tree), copy_to, Tree.copy, Node.copy).  Not modelled: in-place filter, from_dict /
+   Tree.from_dict (compositions of remove / remove_children and of add_child). *)
 From NT Require Import Heap HeapProofs HeapRefine.
 
 (* one step: same result, related states *)
